@@ -1,0 +1,98 @@
+//go:build verif
+
+package discov
+
+import (
+	"encoding/json"
+	"sort"
+	"testing"
+
+	"github.com/gotid/god/internal/verifdrv"
+	"github.com/gotid/god/lib/discov/internal"
+)
+
+// One container case: the OnAdd/OnDelete calls a subscriber's container receives,
+// interleaved with addListener calls and sampling points.
+type verifContOp struct {
+	Op string `json:"op"` // add | del | listen | get
+	K  string `json:"k"`
+	V  string `json:"v"`
+}
+
+type verifContCase struct {
+	Excl bool          `json:"excl"`
+	Ops  []verifContOp `json:"ops"`
+}
+
+type verifValEntry struct {
+	V    string   `json:"v"`
+	Keys []string `json:"keys"`
+}
+
+type verifContSample struct {
+	DirtyBefore bool            `json:"dirty_before"`
+	Get         []string        `json:"get"`     // getValues(), sorted
+	Values      []verifValEntry `json:"values"`  // container.values sorted by value, key slices in slice order
+	Mapping     [][2]string     `json:"mapping"` // container.mapping sorted by key
+	Listeners   []int           `json:"lst"`     // invocation count of every registered listener
+	DirtyAfter  bool            `json:"dirty_after"`
+}
+
+func verifDumpContainer(c *container, counts []*int) verifContSample {
+	var s verifContSample
+	s.DirtyBefore = c.dirty.True()
+	got := append([]string{}, c.getValues()...)
+	sort.Strings(got)
+	s.Get = got
+	s.DirtyAfter = c.dirty.True()
+	c.lock.Lock()
+	s.Values = []verifValEntry{}
+	for v, keys := range c.values {
+		s.Values = append(s.Values, verifValEntry{V: v, Keys: append([]string{}, keys...)})
+	}
+	sort.Slice(s.Values, func(i, j int) bool { return s.Values[i].V < s.Values[j].V })
+	s.Mapping = [][2]string{}
+	for k, v := range c.mapping {
+		s.Mapping = append(s.Mapping, [2]string{k, v})
+	}
+	sort.Slice(s.Mapping, func(i, j int) bool { return s.Mapping[i][0] < s.Mapping[j][0] })
+	c.lock.Unlock()
+	s.Listeners = []int{}
+	for _, p := range counts {
+		s.Listeners = append(s.Listeners, *p)
+	}
+	return s
+}
+
+// TestVerifDriver replays listener-call sequences on the real container of subscriber.go.
+func TestVerifDriver(t *testing.T) {
+	verifdrv.Run(t, func(raw json.RawMessage) any {
+		var cs verifContCase
+		if err := json.Unmarshal(raw, &cs); err != nil {
+			return map[string]any{"error": err.Error()}
+		}
+		// the container is created the way NewSubscriber does it
+		sub := &Subscriber{}
+		if cs.Excl {
+			Exclusive()(sub)
+		}
+		sub.items = newContainer(sub.exclusive)
+		var counts []*int
+		samples := []verifContSample{}
+		for _, op := range cs.Ops {
+			switch op.Op {
+			case "add":
+				sub.items.OnAdd(internal.KV{Key: op.K, Val: op.V})
+			case "del":
+				sub.items.OnDelete(internal.KV{Key: op.K, Val: op.V})
+			case "listen":
+				n := new(int)
+				counts = append(counts, n)
+				sub.AddListener(func() { *n++ })
+			case "get":
+				samples = append(samples, verifDumpContainer(sub.items, counts))
+			}
+		}
+		return map[string]any{"samples": samples}
+	})
+}
